@@ -93,6 +93,7 @@ def run(check, prog):
     f4_metadata(check, prog)
     f6_copy_metadata(check, prog)
     f7_prepared_schema(check, prog)
+    f8_wiring(check, prog)
     f5_state(check, prog)
 
 
@@ -753,3 +754,75 @@ def f7_prepared_schema(check, prog):
                   "'auto' -> the default theory for the scatterer; a class -> its "
                   'instance; anything else unchanged (%d rows)' % n, loc,
                   fail_detail=detail)
+
+
+def f8_wiring(check, prog):
+    """Every calc_* hands the *validated scatterer* and the *prepared schema* to
+    the image former built on the *interpreted theory*, each in the slot the
+    callee declares."""
+    table = {'calc_holo': 'calculate_scattered_field',
+             'calc_field': 'calculate_scattered_field',
+             'calc_scat_matrix': 'calculate_scattering_matrix',
+             'calc_cross_sections': 'calculate_cross_sections'}
+    for name, method in table.items():
+        it, res = analyze(prog, name)
+        fd = prog.func(I + name)
+        loc = prog.loc(I + name, fd)
+        P = {a.arg: sym(a.arg) for a in fd.args.args}
+        vs = intern(('call', I + 'validate_scatterer', (P['scatterer'],), ()))
+
+        def one(q):
+            cs = [c for c in it.calls if c['name'] == q]
+            return cs[0] if len(cs) == 1 else None
+
+        def bound(q, c, skip_self=False):
+            fdc = prog.func(q)
+            nm = [a.arg for a in fdc.args.args]
+            args = list(c['args'])
+            if skip_self:
+                nm, args = nm[1:], args[1:]
+            b = dict(zip(nm, args))
+            b.update(dict(c['kwargs']))
+            return b
+        c = one(I + 'interpret_theory')
+        ok = c is not None and bound(I + 'interpret_theory', c) == {
+            'scatterer': vs, 'theory': P['theory']}
+        th = intern(('call', I + 'interpret_theory', (vs, P['theory']), ()))
+        im = one('holopy.scattering.imageformation.ImageFormation')
+        ok = ok and im is not None and (tuple(im['args']) == (th,) or
+                                        dict(im['kwargs']).get('scattering_theory') == th)
+        c = one(IF + method)
+        detail = ''
+        if ok and c is not None:
+            b = bound(IF + method, c, skip_self=True)
+            recv = c['args'][0]
+            okr = recv[0] == 'new' and dict(recv[3]).get('scattering_theory') == th
+            sch = b.get('schema') if 'schema' in b else b.get('detector')
+            if method == 'calculate_cross_sections':
+                okc = b.get('scatterer') == vs and okr
+            else:
+                okc = b.get('scatterer') == vs and okr and sch is not None and \
+                    sch[0] == 'call' and sch[1] == I + 'prep_schema'
+            detail = '%s(%s)' % (method, ', '.join('%s=%s' % (k, show(x)[:40])
+                                                   for k, x in b.items()))
+            ok = okc
+        else:
+            ok = False
+        check.require(ok, 'F8-calc-wiring', name,
+                      'interpret_theory(validated scatterer, theory) -> '
+                      'ImageFormation(theory).%s(validated scatterer, prepared schema)'
+                      % method, loc, fail_detail=detail)
+    # finalize: un-flatten exactly when the detector is not itself flat
+    q = I + 'finalize'
+    fd = prog.func(q)
+    det, rs = [sym(a.arg) for a in fd.args.args[:2]]
+    it = Interp(prog, max_depth=1, opaque=[M + 'copy_metadata', M + 'from_flat'])
+    v = it.analyze(q).ret
+    hf = intern(('call', 'hasattr', (det, ('const', 'flat')), ()))
+    ok = v[0] == 'call' and v[1] == M + 'copy_metadata' and len(v[2]) >= 2 and \
+        v[2][1] == ('ite', hf, rs, ('call', M + 'from_flat', (rs,), ()))
+    check.require(ok, 'F4-finalize-copies-metadata', 'finalize un-flattening',
+                  'the result is un-flattened iff the detector is a grid (has no '
+                  '`flat` index)', prog.loc(q, fd),
+                  fail_detail='data is %s' % (show(v[2][1])[:120] if len(v) > 2 and
+                                              len(v[2]) > 1 else None))
